@@ -513,6 +513,8 @@ func (m *Machine) intrinsic(name string, fn *ssa.Function, args []Value) (Value,
 			return nil, true
 		case "JSONMembers":
 			return m.jsonMembers(args[0], args[1]), true
+		case "JSONTransfer":
+			return m.jsonTransfer(args[0], args[1], args[2]), true
 		}
 		panic("unknown verifapi function " + name)
 	}
